@@ -82,8 +82,8 @@ def run(cx: Cx):
         sites = cx.effects.sites_of(loc)
         for s in sites:
             self_sym = Sym(s.fn.params[0]) if s.fn.params else None
-            kinds = table.get(s.fn.name)
-            kind_ok = kinds == s.kind or (s.fn.name == 'remove_class_component' and s.kind == 'pop')
+            kinds = table.get(s.owner_name)
+            kind_ok = kinds == s.kind or (s.owner_name == 'remove_class_component' and s.kind == 'pop')
             if s.fn.cls == meta and kind_ok and _rooted_at(s.ev.data.get('target'), self_sym):
                 cx.ok('R-DISC', f"{s.fn.name}: {s.kind} on the receiver's own {loc[1]}", where=s.where, function=s.fn.qualname)
             else:
